@@ -17,6 +17,19 @@ def get_args(tp):
     return args
 
 
+def _any_to_object(t):
+    if t is typing.Any:
+        return object
+    args = getattr(t, "__args__", None)
+    if args and getattr(t, "__origin__", None) is not None:
+        new_args = tuple(_any_to_object(a) for a in args)
+        if new_args != tuple(args):
+            if hasattr(t, "copy_with"):
+                return t.copy_with(new_args)
+            return t.__origin__[new_args]
+    return t
+
+
 class TypeNormalizer:
     def __init__(self, generic_handlers=None):
         self.generic_handlers = generic_handlers or TypeMap()
@@ -48,7 +61,9 @@ class TypeNormalizer:
         if UnionType and isinstance(t, UnionType):
             return self(t.__args__, fn)
         elif origin is type:
-            return t
+            # typing.Any counts as object, also inside: type[Any], type[list[Any]]
+            (arg,) = t.__args__ or (object,)
+            return type[_any_to_object(arg)]
         elif origin and getattr(t, "__args__", None) is None:
             return t
         elif origin is not None:
